@@ -86,6 +86,10 @@ fn put_state(sc: &mut ControlChange14BitMessageScanner, ch: u8, st: u64) {
     }
 }
 
+/// `variant` (derived from `others`): how the prior state is followed up before the encoding is fed:
+/// 0 nothing, 1 a reset and the same state again, 2 a reset only (the scanner must be like new),
+/// 3 a lone LSB of the message's own controller, 4 a lone LSB of another controller,
+/// 5 a Control Change outside 0-63, 6 reset + lone LSB
 fn check_decode_after(st: u64, others: u64, ch: u8, n: u8, v: u16, carrier: u8) -> CheckResult {
     let mut sc = api(ControlChange14BitMessageScanner::new);
     // other channels in seed-chosen states
@@ -98,6 +102,29 @@ fn check_decode_after(st: u64, others: u64, ch: u8, n: u8, v: u16, carrier: u8) 
         }
     }
     put_state(&mut sc, ch, st);
+    let variant = if others == 0 { 0 } else { (others >> 8) % 7 };
+    let x = (others >> 16) as u8 & 127;
+    match variant {
+        1 => {
+            api(|| sc.reset());
+            put_state(&mut sc, ch, st);
+        }
+        2 => api(|| sc.reset()),
+        3 => {
+            let _ = feed_cc14(&mut sc, 0, 0xB0 | ch, n + 32, x);
+        }
+        4 => {
+            let _ = feed_cc14(&mut sc, 0, 0xB0 | ch, 32 + ((n + 1 + (x & 15)) & 31), x);
+        }
+        5 => {
+            let _ = feed_cc14(&mut sc, 0, 0xB0 | ch, 64 + (x & 63), x);
+        }
+        6 => {
+            api(|| sc.reset());
+            let _ = feed_cc14(&mut sc, 0, 0xB0 | ch, n + 32, x);
+        }
+        _ => {}
+    }
     let msg = ControlChange14BitMessage::new(h_ch(ch), h_cn(n), h_u14(v));
     decode_expect(&mut sc, &msg, carrier, "decode_after_state")?;
     // non-trivial: stale data that must be overwritten
@@ -179,7 +206,7 @@ pub fn run_c07(ctx: &Ctx) -> Report {
             if thorough {
                 "every one of the 4097 reachable states of the message's channel x all 32 x 16384 messages (channel = state index mod 16), other channels in seed-chosen states"
             } else {
-                "every message x 4 seed-chosen states of the message's channel (out of 4097), other channels in seed-chosen states"
+                "every message x 4 seed-chosen states of the message's channel (out of 4097), other channels in seed-chosen states; the state is followed by one of 7 seed-chosen follow-ups (nothing, reset + same state, reset only, lone LSB of the same / another controller, a controller outside 0-63, reset + lone LSB)"
             },
             "non-trivial = prior state holds a different MSB controller or the same controller with a different value",
             thorough,
@@ -221,7 +248,7 @@ pub fn run_c07(ctx: &Ctx) -> Report {
         subs.push(sub);
     }
     {
-        let cases = ctx.pick(2_000u64, 30_000, 600_000);
+        let cases = ctx.pick(2_000u64, 100_000, 600_000);
         let max_len = ctx.pick(24usize, 48, 200);
         let proto = Sub::new(
             "decode_after_history",
@@ -472,9 +499,50 @@ pub fn run_c08(ctx: &Ctx) -> Report {
         }
         subs.push(sub);
     }
+    // repetition probes (wrapping counters): from every state of the abstract fixpoint every
+    // operation is repeated k times, then every operation is tried once
+    {
+        let ch = 11u8;
+        let alphabet = bfs_alphabet(false, ch);
+        let t0 = std::time::Instant::now();
+        let out = bfs(
+            ctx,
+            BState { sc: ControlChange14BitMessageScanner::new(), rf: RefCc14::default() },
+            alphabet.len(),
+            |s, i| bfs_step(s, &alphabet[i]),
+            |s| key_of(&s.sc, &[hash64(&s.rf)]),
+            200_000,
+        );
+        let mut sub = Sub::new(
+            "repetition_probes",
+            &format!("from every state of the abstract fixpoint on channel {} (64 controllers x values {{0,1,64,127}}), every operation (incl. reset) repeated k times, k in {{255,256,257}} (thorough: also 65535-65537 from 8 states), followed by every operation once; oracle as in the BFS", ch),
+            "non-trivial = every probe",
+            false,
+        );
+        let mut failure = out.failure.as_ref().map(|(p, f)| (p.clone(), f.clone()));
+        if failure.is_none() {
+            let (tr, f) = repetition_probes(ctx, &out, alphabet.len(), |s, i| bfs_step(s, &alphabet[i]), &[255, 256, 257], if ctx.reduced { 8 } else { usize::MAX });
+            sub.evals += tr;
+            failure = f;
+            if failure.is_none() && ctx.thorough() {
+                let (tr, f) = repetition_probes(ctx, &out, alphabet.len(), |s, i| bfs_step(s, &alphabet[i]), &[65535, 65536, 65537], 8);
+                sub.evals += tr;
+                failure = f;
+            }
+        }
+        sub.nontrivial = sub.evals;
+        sub.states = out.states.len() as u64;
+        sub.wall_ms = t0.elapsed().as_millis() as u64;
+        sub.samples.push(json!({"kind": "history", "ops": ops_json(&[Op::cc(ch, 7, 1), Op::Reset, Op::Reset, Op::cc(ch, 39, 2)]), "note": "shape of a probe: state, operation repeated k times, one more operation"}));
+        if let Some((path, f)) = failure {
+            let ops: Vec<Op> = path.iter().map(|i| alphabet[*i]).collect();
+            sub.record(f, || json!({"kind": "history", "ops": ops_json(&ops)}), ops.len() as u128);
+        }
+        subs.push(sub);
+    }
     // style R
     {
-        let cases = ctx.pick(3_000u64, 40_000, 1_000_000);
+        let cases = ctx.pick(3_000u64, 150_000, 1_000_000);
         let max_len = ctx.pick(32usize, 64, 400);
         let proto = Sub::new(
             "random_histories",
